@@ -61,6 +61,9 @@ def load(R):
     R.spec("MEMOIZABLE", ["k"], "not (body_raises(k) and (exc_remote(k) or exc_nonmemo(k)))")
     # store consistent with the (deterministic) functions: only memoizable outcomes are recorded, with the value the body produces
     R.spec("CONS", ["s"], "forall(str, lambda k: same(s.values[k], MEMOVAL(k)) and implies(k in s.mementos, s.mementos[k] is not None and KEYM(s.mementos[k]) == k and MEMOIZABLE(k)))")
+    # C02: "the recorded result type always matches the value read back" -- as far as the runner relies on it: the memento of a call says 'exception' iff
+    # the stored outcome is a memoized exception
+    R.spec("TYPE_MATCHES", ["s", "m"], "same(m.invocation_metadata.result_type, ResultType.exception) == isinstance(s.values[KEYM(m)], MementoException)")
     R.spec("STORE_UNCHANGED", ["s"], "forall(str, lambda k: (k in s.mementos) == old(k in s.mementos) and same(s.mementos[k], old(s.mementos[k])) and same(s.values[k], old(s.values[k])))")
     # what a caller of the memento function gets back for key k (an exception object stands for "raises it")
     R.spec("OUTCOME_OK", ["r", "k"], "exc_equiv(r, bodyexc(k)) if body_raises(k) else same(r, UNWRAP(bodyval(k)))")
@@ -185,7 +188,9 @@ def load(R):
     FWH = TObj("nn:FunctionReferenceWithArgHash")
     FR = TObj("nn:FunctionReference")
     R.contract("storage:StorageBackend.get_mementos", assumed=True, types={"self": S, "fns": TList(FWH)}, returns=TList(TObj("Memento")),
-               ensures=["len(result) == len(fns)", "forall(int, lambda j: implies(0 <= j and j < len(fns), same(result[j], self.mementos[KEYF(fns[j])] if KEYF(fns[j]) in self.mementos else None)))"])
+               ensures=["len(result) == len(fns)", "forall(int, lambda j: implies(0 <= j and j < len(fns), same(result[j], self.mementos[KEYF(fns[j])] if KEYF(fns[j]) in self.mementos else None)))",
+                        # interface fact: a stored memento records the type of the stored outcome (memoize is given result_type = from_object(value): proved for memento_run_local)
+                        "forall(int, lambda j: implies(0 <= j and j < len(fns) and KEYF(fns[j]) in self.mementos, TYPE_MATCHES(self, self.mementos[KEYF(fns[j])])))"])
     R.contract("storage:StorageBackend.read_result", assumed=True, types={"self": S, "memento": M}, returns=TObj(),
                raises={"OSError+": ["ghost('io_errors') == old(ghost('io_errors')) + 1"]},
                ensures=["same(result, self.values[KEYM(memento)])", "ghost('io_errors') == old(ghost('io_errors'))"], modifies=["ghost:io_errors"])
@@ -222,9 +227,14 @@ def load(R):
     R.contract("runner:process_existing_memento", prop="C02", types={"storage_backend": S, "existing_memento": M, "ignore_result": TBool}, returns=EMR,
                ghost_params=GH,
                ensures=["STORE_UNCHANGED(storage_backend)", "ghost('body_calls') == old(ghost('body_calls'))", "ghost('memoize_seen') == old(ghost('memoize_seen'))",
-                        "implies(ignore_result, result.valid_result and result.result is None and ghost('io_errors') == old(ghost('io_errors')))",
-                        "implies(not ignore_result and result.valid_result, ghost('io_errors') == old(ghost('io_errors')) and same(result.result, "
-                        "toexc(storage_backend.values[KEYM(existing_memento)]) if isinstance(storage_backend.values[KEYM(existing_memento)], MementoException) else storage_backend.values[KEYM(existing_memento)]))",
+                        # from the property: an exception is replayed the same way under every call modifier; ignore_result only drops VALUES
+                        # (the memento's recorded type tells an exception from a value without reading it: TYPE_MATCHES is what get_mementos hands out)
+                        "implies(ignore_result and old(TYPE_MATCHES(storage_backend, existing_memento)) and not isinstance(storage_backend.values[KEYM(existing_memento)], MementoException), "
+                        "result.valid_result and result.result is None and ghost('io_errors') == old(ghost('io_errors')))",
+                        "implies(result.valid_result and isinstance(storage_backend.values[KEYM(existing_memento)], MementoException) and (not ignore_result or old(TYPE_MATCHES(storage_backend, existing_memento))), "
+                        "ghost('io_errors') == old(ghost('io_errors')) and same(result.result, toexc(storage_backend.values[KEYM(existing_memento)])))",
+                        "implies(not ignore_result and result.valid_result and not isinstance(storage_backend.values[KEYM(existing_memento)], MementoException), "
+                        "ghost('io_errors') == old(ghost('io_errors')) and same(result.result, storage_backend.values[KEYM(existing_memento)]))",
                         "implies(not result.valid_result, result.result is None and ghost('io_errors') == old(ghost('io_errors')) + 1)"],
                modifies=["ghost:io_errors"])
 
@@ -255,6 +265,7 @@ def load(R):
                         "[C02] ghost('memoize_seen') <= old(ghost('memoize_seen')) + 1",
                         "[C02,C15] implies(not context.local.ignore_result, OUTCOME_OK(ret, %s))" % K,
                         "[C02] implies(context.local.ignore_result and not body_raises(%s), ret is None)" % K,
+                        "[C02,C15] implies(context.local.ignore_result and body_raises(%s), exc_equiv(ret, bodyexc(%s)))" % (K, K),
                         # what this call memoizes: the recorded result type describes the stored value; an override key is the body's
                         "[C02] implies(ghost('memoize_seen') == old(ghost('memoize_seen')) + 1, same(ghost('last_memoized_type'), RT(MEMOVAL(%s))) "
                         "and ghost('last_key_override') == (bodyval(%s).key_override if (not body_raises(%s) and isinstance(bodyval(%s), KeyOverrideResult)) else None))" % (K, K, K, K),
